@@ -87,7 +87,7 @@ func genC13(x *Ctx) *c13Scen {
 		maxPayload = 70000
 	}
 	id := 0
-	kinds := []string{"get", "get", "post-gzip", "early-close", "post-trunc", "notfound", "panic", "post-deflate", "client-gone", "plain", "hijack", "manual"}
+	kinds := []string{"get", "get", "post-gzip", "early-close", "post-trunc", "notfound", "panic", "post-deflate", "client-gone", "plain", "hijack", "manual", "no-content"}
 	aes := []string{"gzip", "deflate", "gzip", "deflate, gzip", ""}
 	tp.Repeat(2, nClients, 600, func(int) {
 		var reqs []*c13Req
@@ -220,6 +220,14 @@ func runC13(x *Ctx) {
 		conn.Close()
 		t.Y(sim.SiteHandler)
 	}))
+	// a bodyless answer (204 after a DELETE, 304 to a conditional GET) on an encoding container
+	ws.Route(ws.GET("/nocontent").To(func(req *restful.Request, resp *restful.Response) {
+		t := sim.Cur()
+		r := byID[ReqID(req.Request)]
+		t.Count("bodyless-responses")
+		resp.WriteHeader([]int{204, 304}[r.ID%2])
+		t.Y(sim.SiteHandler)
+	}))
 	ws.Route(ws.POST("/echo").To(func(req *restful.Request, resp *restful.Response) {
 		r := byID[ReqID(req.Request)]
 		var ent echoEntity
@@ -293,6 +301,8 @@ func runC13(x *Ctx) {
 					hr = NewReq("GET", "/p/hijack", hdr, nil, 0, r.ID)
 				case "manual":
 					hr = NewReq("GET", "/m/data", hdr, nil, 0, r.ID)
+				case "no-content":
+					hr = NewReq("GET", "/p/nocontent", hdr, nil, 0, r.ID)
 				case "notfound":
 					hr = NewReq("GET", "/p/none", hdr, nil, 0, r.ID)
 				case "plain":
@@ -410,6 +420,10 @@ func runC13(x *Ctx) {
 					x.Violate("unlabelled", "request %d (manual): a response written through NewCompressingResponseWriter carries no Content-Encoding", r.ID)
 				} else if !bytes.Equal(got, r.payload) {
 					x.Violate("foreign-payload", "request %d (manual): decoded body (%d bytes, %q) is not its own payload (%d bytes)", r.ID, len(got), clip(string(got), 40), len(r.payload))
+				}
+			case "no-content":
+				if st := r.w.Status(); st != []int{204, 304}[r.ID%2] || len(got) != 0 {
+					x.Violate("status", "request %d (no-content): status %d with %d decoded body bytes", r.ID, st, len(got))
 				}
 			case "get", "early-close":
 				if !bytes.Equal(got, r.payload) {
